@@ -705,7 +705,7 @@ func schedLoop(pl *Plan, sched []Quantum, tasks []*rt.Task, sw *schedWorld, fp0 
 				default:
 				}
 			}
-			timer.Reset(20 * time.Second)
+			timer.Reset(8 * time.Second)
 			select {
 			case ev = <-rt.ToSched:
 			case <-timer.C:
@@ -757,7 +757,7 @@ func schedWorker() {
 	schedInit()
 	seed := masterSeed()
 	out := &WorkerOut{Prop: "C14", Faults: map[string]int{}, Known: map[string]int{}, Aborted: map[string]int{}, Extra: map[string]int64{}}
-	seen := map[uint64]struct{}{}
+	var hashes []uint64
 	states := newHLL()
 	t0 := time.Now()
 	prog := *fOut + ".progress"
@@ -790,14 +790,11 @@ func schedWorker() {
 		states.Add(res.ILHash)
 		out.Digest = out.Digest*1099511628211 ^ res.ILHash ^ (res.ResHash * 31)
 		if res.InLib > 0 {
-			h := res.ILHash ^ res.ResHash*31
-			if _, ok := seen[h]; !ok {
-				seen[h] = struct{}{}
-				if len(out.Samples) < 2 && res.Switches <= 12 {
-					pl.Schedule = res.Schedule
-					s, _ := json.Marshal(map[string]interface{}{"run": i, "trace": schedTrace(&pl)})
-					out.Samples = append(out.Samples, s)
-				}
+			hashes = append(hashes, res.ILHash^res.ResHash*31)
+			if len(out.Samples) < 2 && res.Switches <= 12 {
+				pl.Schedule = res.Schedule
+				s, _ := json.Marshal(map[string]interface{}{"run": i, "trace": schedTrace(&pl)})
+				out.Samples = append(out.Samples, s)
 			}
 		}
 		if res.Clause != "" {
@@ -814,10 +811,7 @@ func schedWorker() {
 			out.Redone++
 		}
 	}
-	for h := range seen {
-		out.Hashes = append(out.Hashes, h)
-	}
-	sort.Slice(out.Hashes, func(i, j int) bool { return out.Hashes[i] < out.Hashes[j] })
+	out.Hashes = dedupe(hashes)
 	out.Hits = rt.Hits
 	out.States = states.R
 	out.WallS = time.Since(t0).Seconds()
@@ -967,8 +961,8 @@ func runOne(bin string, pl *Plan, tmp string, atomic bool) oneResult {
 // ---------------------------------------------------------------- drive
 
 var schedTier = map[string][2]int{ // plain runs, race runs
-	"quick":    {30_000, 3_000},
-	"thorough": {3_000_000, 300_000},
+	"quick":    {100_000, 8_000},
+	"thorough": {4_000_000, 400_000},
 }
 
 const schedRule = "seeded plans: 1-3 shared parsers/profiles (random option subsets, the four predefined profiles, the package-level functions), 0-3 shared base URLs (parsed, some taken through setters, some with SearchParams materialised before sharing), 2-4 tasks of 1-6 operations from the read-only vocabulary (Parse/ParseRef, (*Url).Parse against a shared base, getter bundle, Clone, Get/GetAll/Has/String on pre-materialised parameters, PercentEncodeString, NewUrl, Set/Clear/test on exported encode sets) plus private mutating follow-ups on the task's own results; real goroutines run the instrumented library, a yield point before every statement hands control to a seeded scheduler (strategies: uniform quanta, PCT priorities with 1-3 change points, stall-at-statement, operation-wise, sequential control). Oracles: Go race detector made blind to the simulator's hand-off (C14.race), every operation's observation equals the run-alone twin's (C14.result), deep reflection fingerprints of all shared objects and of every package-level variable of the module (C14.shared-unchanged). Distinct = distinct (interleaving hash, result hash); non-trivial = at least one context switch happened while the preempted task was inside a library call."
@@ -1070,6 +1064,7 @@ func runSchedChildren(bin string, n int, tag string, capSec int) ([]*WorkerOut, 
 				if err != nil || json.Unmarshal(d, &o) != nil {
 					infra("worker %d wrote no result", f.k)
 				}
+				o.Hashes = readHashes(c.out + ".hashes")
 				outs = append(outs, &o)
 				pending--
 			case 4:
